@@ -95,7 +95,7 @@ def gen_wellformed(rng, policy, nfr):
     parts, truths = [], []
     for j in range(nfr):
         last = j == nfr - 1
-        b, t = qframes.random_frame(rng, w, last=last)
+        b, t = qframes.random_frame(rng, w, last=last, big_ack=True)
         # a PADDING run directly followed by another keeps merging; fine (normalise)
         t["_len"] = len(b)
         parts.append(b)
